@@ -33,6 +33,7 @@ int        g_j;
 NC_attr   *g_ex, *g_oth;
 unsigned   g_namelen;   /* strlen(name) as the constructor sees it */
 int32      g_k;         /* ghost byte index (name / value bytes) */
+size_t     g_nbytes;    /* SDreadattr: size of the value in bytes */
 /* faults injected into the constructors (arbitrary, chosen by the harness) */
 int g_newattr_fails, g_newarr_fails, g_incr_fails;
 int g_excl_oom_append; /* harness switch: leave "NC_new_attr fails on the append path" out */
@@ -320,17 +321,21 @@ int SDattrinfo(int32 id, int32 index, char *name, int32 *nt, int32 *count)
                       (*nt == AI_AT(index)->HDFtype && *count == (int32)AI_AT(index)->data->count && name[g_namelen] == '\0'))
     __CPROVER_ensures((__CPROVER_return_value == SUCCEED && g_k >= 0 && (unsigned)g_k < g_namelen) ==> name[g_k] == AI_AT(index)->name->values[g_k]);
 
-#define RA_NBYTES(index) ((size_t)AI_AT(index)->data->count * AI_AT(index)->data->szof)
+/* count*szof, spelled with constant factors (szof is 1, 2, 4 or 8: NC_typelen) */
+#define RA_MUL(c, w) ((w) == 1 ? (size_t)(c) : (w) == 2 ? (size_t)(c)*2 : (w) == 4 ? (size_t)(c)*4 : (size_t)(c)*8)
+#define RA_NBYTES(index) RA_MUL(AI_AT(index)->data->count, AI_AT(index)->data->szof)
+/* g_nbytes: the size of the attribute's value in bytes, count*szof (a plain ghost so that the frame and the
+   byte clause need no multiplication) */
 int SDreadattr(int32 id, int32 index, void *buf)
     __CPROVER_requires(g_ap == NULL || *g_ap == NULL || ((*g_ap)->values != NULL && (*g_ap)->szof == sizeof(NC_attr *) && (*g_ap)->count <= 0x7ffffff0))
     __CPROVER_requires(!AI_OK(index) || (AI_AT(index)->data != NULL && AI_AT(index)->data->values != NULL && AI_AT(index)->data->count <= MAX_ORDER &&
                                          (AI_AT(index)->data->szof == 1 || AI_AT(index)->data->szof == 2 || AI_AT(index)->data->szof == 4 ||
-                                          AI_AT(index)->data->szof == 8)))
+                                          AI_AT(index)->data->szof == 8) && g_nbytes == RA_NBYTES(index)))
     __CPROVER_requires(g_cv_calls == 0)
-    __CPROVER_assigns(buf != NULL && AI_OK(index): __CPROVER_object_upto(buf, RA_NBYTES(index)); g_cv_calls)
+    __CPROVER_assigns(buf != NULL && AI_OK(index): __CPROVER_object_upto(buf, g_nbytes); g_cv_calls)
     __CPROVER_ensures(__CPROVER_return_value == SUCCEED || __CPROVER_return_value == FAIL)
     __CPROVER_ensures((__CPROVER_return_value == SUCCEED) == (buf != NULL && AI_OK(index)))
-    __CPROVER_ensures((__CPROVER_return_value == SUCCEED && g_k >= 0 && (size_t)g_k < RA_NBYTES(index)) ==>
+    __CPROVER_ensures((__CPROVER_return_value == SUCCEED && g_k >= 0 && (size_t)g_k < g_nbytes) ==>
                       ((h4v_u8 *)buf)[g_k] == AI_AT(index)->data->values[g_k]);
 
 #ifdef H4V_NATIVE
@@ -465,6 +470,9 @@ mk_file(int32 id, NC_array *arr)
     H4V_ND(int, cvar_null);
     H4V_ASSUME(g_cdfid >= 0 && g_cdfid < 0x1000);
     H4V_ASSUME(nvars <= 0x10000 && ndims <= 0x10000);
+#ifdef EXP_NOTAB
+    H4V_ASSUME(vars_null && dims_null);
+#endif
     int      fid = (int)((id >> 20) & 0xfff);
     int      typ = (int)((id >> 16) & 0x0f);
     unsigned idx = (unsigned)(id & 0xffff);
@@ -567,6 +575,7 @@ mk_qlist(int32 index, int for_values)
     H4V_ND(unsigned, nattrs);
     H4V_ND(int, slot_null);
     H4V_ASSUME(g_namelen <= H4_MAX_NC_NAME);
+    g_nbytes = 0;
     if (list_null)
         return NULL;
     H4V_ASSUME(nattrs <= H4_MAX_NC_ATTRS + 1);
@@ -602,10 +611,14 @@ mk_qlist(int32 index, int for_values)
             d->values   = NULL;
             s->hash     = 0;
             if (for_values) {
+#ifdef EXP_SMALL
+                H4V_ASSUME(a_count <= 16);
+#endif
                 H4V_ASSUME(a_count <= MAX_ORDER);
                 H4V_ASSUME(a_szof == 1 || a_szof == 2 || a_szof == 4 || a_szof == 8);
-                size_t nb = a_szof == 1 ? (size_t)a_count : a_szof == 2 ? (size_t)a_count * 2 : a_szof == 4 ? (size_t)a_count * 4 : (size_t)a_count * 8;
+                size_t nb = RA_MUL(a_count, a_szof);
                 d->szof   = a_szof;
+                g_nbytes  = nb;
                 H4V_ND_BUF(h4v_u8, avals, nb + 1, 17);
                 d->values = avals;
                 s->count = s->len = 0;
@@ -650,11 +663,15 @@ h_SDreadattr(void)
     NC_array *arr = mk_qlist(index, 1);
     reset_logs();
     mk_file(id, arr);
-    size_t nb = AI_OK(index) ? RA_NBYTES(index) : 0;
+    size_t nb = AI_OK(index) ? g_nbytes : 0;
     H4V_ND_BUF(h4v_u8, buf, nb + 1, 17);
+#ifndef EXP_NOGUARD
     h4v_u8 guard = buf[nb];
+#endif
     int    r     = SDreadattr(id, index, buf_null ? NULL : buf);
+#ifndef EXP_NOGUARD
     H4V_CHECK(buf[nb] == guard, "SDreadattr: the byte after count*szof bytes is untouched");
+#endif
     H4V_COVER(r == SUCCEED && nb == 6, "readattr: 3 values of 2 bytes");
     H4V_COVER(r == SUCCEED && nb == 8 * MAX_ORDER, "readattr: largest attribute");
     H4V_COVER(r == FAIL && !buf_null && g_ap != NULL, "readattr: bad index");
